@@ -151,7 +151,37 @@ class Watch(Exception):
     pass
 
 
-def run_stream(pieces: List[Tuple[str, str]], cuts: Sequence[int], thr: int) -> dict:
+def ideal_scan(text: str) -> List[Tuple[int, int]]:
+    """(first, last) of the valid messages an ideal receiver finds: at each "<" + known tag, the shortest well-formed element is
+    taken (delivered if it is a valid message, skipped as a whole if not); anything else is skipped character by character."""
+    tags = known_tags()
+    out = []
+    p, n = 0, len(text)
+    while p < n:
+        if text[p] == "<" and any(text.startswith("<" + t, p) for t in tags):
+            end = text.find(">", p)
+            found = None
+            while end >= 0:
+                part = text[p:end + 1]
+                try:
+                    ET.fromstring(part)
+                    found = end
+                    break
+                except ET.ParseError:
+                    end = text.find(">", end + 1)
+            if found is not None:
+                try:
+                    IndiMessage.from_string(text[p:found + 1])
+                    out.append((p + 1, found + 1))
+                except Exception:
+                    pass
+                p = found + 1
+                continue
+        p += 1
+    return out
+
+
+def run_stream(pieces: List[Tuple[str, str]], cuts: Sequence[int], thr: int, mini: bool = False) -> dict:
     """pieces: (class, text) with class 'msg' | 'junk' | 'dirty'.  Returns one trace for TraceFraming."""
     text = "".join(t for _, t in pieces)
     msgs = []
@@ -168,8 +198,18 @@ def run_stream(pieces: List[Tuple[str, str]], cuts: Sequence[int], thr: int) -> 
                 body = body[k:].lstrip()
             mid += 1
             msgs.append({"id": mid, "first": pos + lead + 1, "last": pos + lead + len(body)})
-            expect[mid] = infoset(ET.fromstring(body))
+            # (mini alphabet: the toy classes K / C invent fields - C a name - so that the expected content is taken from the same classes)
+            expect[mid] = view(IndiMessage.from_string(body)) if mini else infoset(ET.fromstring(body))
         pos += len(t)
+    if mini:
+        # Mini-alphabet streams of many pieces can wrap a valid message into a larger well-formed element made of junk around it
+        # ("<k>" + message + "</k>"): such a message is part of a corrupt element, not "a later valid message", and no receiver
+        # can tell it apart.  Only the messages an ideal receiver (whole stream at once, no threshold) finds at top level are owed.
+        top = set(ideal_scan(text))
+        kept = [m for m in msgs if (m["first"], m["last"]) in top]
+        renum = {m["id"]: i + 1 for i, m in enumerate(kept)}
+        expect = {renum[m["id"]]: expect[m["id"]] for m in kept}
+        msgs = [{"id": renum[m["id"]], "first": m["first"], "last": m["last"]} for m in kept]
     inside = [False] * (len(text) + 2)
     for m in msgs:
         for i in range(m["first"], m["last"] + 1):
